@@ -222,6 +222,11 @@ def run(tier, seed):
         inv = INVALID[k:] + INVALID[:k]
         plans = [(VALID + INVALID, 2, ROOTS),
                  (VALID[:12] + ['EUR'] + inv[:6], 3, ROOTS)]
+    # operations evaluated (memoised) before a better-fitting unit exists,
+    # then rejected declarations: the returned unit must not change
+    plans.append((['?query', 'x1/y1', 'x1²', '!dupsym', '!otherdim2',
+                   '!empty', '?query2'], 5 if tier == 'thorough' else 4,
+                  [ROOTS[2]]))
     for names, depth, roots in plans:
         for root in roots:
             n, nfp, ng = explore(names, depth, total, root)
